@@ -584,7 +584,7 @@ def histogram(cases, obss):
     return h
 
 
-SANS = [["localhost"], ["other.example"], ["*.example.test"], ["127.0.0.1"], ["::1"], ["localhost", "127.0.0.1"], ["dns:127.0.0.1"], ["dns:127.0.0.1", "other.example"]]
+SANS = [["localhost"], ["other.example"], ["*.example.test"], ["127.0.0.1"], ["::1"], ["localhost", "127.0.0.1"], ["dns:127.0.0.1"], ["dns:127.0.0.1", "other.example"], ["::7f00:1"], ["0.0.0.1"]]
 HOSTS = ["localhost", "LOCALHOST", "localhost.", "127.0.0.1", "[::1]", "[::1%25lo]", "www.example.test", "a.b.example.test"]
 
 
@@ -637,8 +637,13 @@ def cases(rng, tier):
         for cr in ("default", "OPTIONAL"):
             for ah in ("unset", "127.0.0.1"):
                 for ctx in ("none", "nocheck"):
-                    for san in (["dns:127.0.0.1"], ["127.0.0.1"]):
+                    for san in (["dns:127.0.0.1"], ["127.0.0.1"], ["::7f00:1"], ["::127.0.0.1", "other.example"], ["::ffff:127.0.0.1"]):
+                        # (an iPAddress entry of the other family with the same numeric value names another address)
                         out.append(dict(base, host="127.0.0.1", backend=backend, cert_reqs=cr, assert_hostname=ah, fingerprint="unset", context=ctx, issuer="trusted", san=san))
+                    if ah == "unset":
+                        for host6 in ("[::1]", "[::1%25lo]"):
+                            for san in (["0.0.0.1"], ["::1"]):
+                                out.append(dict(base, host=host6, backend=backend, cert_reqs=cr, assert_hostname=ah, fingerprint="unset", context=ctx, issuer="trusted", san=san))
     # the other backend and the tunnels, over the decisions that differ there
     for backend in ("ssl", "pyopenssl"):
         for route in ("direct", "http_tunnel", "https_tunnel"):
